@@ -49,6 +49,7 @@ type Contract struct {
 	Inline      bool
 	MayPanic    bool // documented to panic (Must* helpers): panic-reachable not generated
 	Lemma       bool
+	Global      bool
 	Binders     []Binder // for lemmas
 	Uses        []string // prelude symbols to force-include
 	Fresh       []string // result names asserted fresh
@@ -120,6 +121,14 @@ func ParseContractFile(path, pkgPath string) ([]*Contract, error) {
 			return Clause{Text: rest, Expr: e, Line: ln}, nil
 		}
 		switch word {
+		case "global":
+			// "global <name>": invariants of a package-level variable, established by the
+			// package initialiser and assumed by every function of the package that claims a frame
+			c := &Contract{File: path, Header: body, Loops: map[int]*LoopSpec{}, Key: "global:" + qualify(pkgPath, rest), Global: true}
+			out = append(out, c)
+			cur = c
+			curLoop = &LoopSpec{}
+			continue
 		case "func", "iface", "field", "lemma":
 			c := &Contract{File: path, Header: body, Loops: map[int]*LoopSpec{}}
 			curLoop = nil
@@ -189,6 +198,10 @@ func ParseContractFile(path, pkgPath string) ([]*Contract, error) {
 			case "panics-when":
 				cur.PanicsWhen = append(cur.PanicsWhen, cl)
 			case "invariant":
+				if cur.Global {
+					cur.Ensures = append(cur.Ensures, cl)
+					continue
+				}
 				if curLoop == nil {
 					return nil, fmt.Errorf("%s:%d: invariant outside loop", path, ln)
 				}
